@@ -496,4 +496,116 @@ theorem countKind_replicate_use (kd : Kind) (sp : Space) (k : Key) (n : Nat) (h 
     simp [isKind, Ne.symm h]
 
 
+/-! ## per-object accounting: refcount after = refcount before + retains − releases -/
+
+def isOp (kd : Kind) (k : Key) (o : Op) : Nat := if o = ⟨kd, k⟩ then 1 else 0
+
+def countOp (kd : Kind) (k : Key) : Trace → Nat
+  | [] => 0
+  | o :: t => isOp kd k o + countOp kd k t
+
+theorem rcOf_step_other {s s' : Store} {o : Op} {k : Key} {n : Nat} (h : step s o = some s')
+    (hn : rcOf s k = some n) (hk : o.key ≠ k) : rcOf s' k = some n := by
+  obtain ⟨kd, k0⟩ := o
+  have hk' : k ≠ k0 := fun e => hk e.symm
+  obtain ⟨c, hf, hg, hrc⟩ := rcOf_some_find hn
+  have key : ∀ {m : Nat} (r : Option Nat), rcOf s k0 = some m → rcOf (upd s k0 r) k = some n := by
+    intro m r hm
+    obtain ⟨c0, hf0, hg0, _⟩ := rcOf_some_find hm
+    rw [rcOf_upd_other hf0 hg0 hk' r]; exact hn
+  cases kd with
+  | alloc =>
+    rcases step_alloc h with ⟨hnone, rfl⟩ | ⟨c0, hf0, hvac, hlt, rfl⟩
+    · have hns : ¬ SameSlot k0 k := by
+        intro hs; rw [find_congr hs] at hnone; rw [hnone] at hf; cases hf
+      have hh : (⟨k0.space, k0.slot, k0.gen, some 1⟩ : Cell).holds k = false := by
+        simp only [Cell.holds, Bool.and_eq_false_iff, beq_eq_false_iff_ne, ne_eq]
+        by_cases h1 : k0.space = k.space
+        · right; intro h2; exact hns ⟨h1, h2⟩
+        · left; exact h1
+      simpa [rcOf, find, hh] using hn
+    · have hns : ¬ SameSlot k0 k := by
+        intro hs
+        have : find s k = some c0 := by rw [← find_congr hs]; exact hf0
+        rw [hf] at this; cases this
+        rw [hvac] at hrc; cases hrc
+      simpa [rcOf, find_upd, hns] using hn
+  | retain => obtain ⟨m, hm, rfl⟩ := step_retain h; exact key _ hm
+  | release => obtain ⟨m, hm, rfl⟩ := step_release h; exact key _ hm
+  | free => obtain ⟨hm, rfl⟩ := step_free h; exact key _ hm
+  | use => obtain ⟨m, _, rfl⟩ := step_use h; exact hn
+  | close => obtain ⟨m, _, rfl⟩ := step_close h; exact hn
+
+/-- one step: the count of a live object that is not removed by the step moves by exactly the step's retain / release of it -/
+theorem rcOf_step {s s' : Store} {o : Op} {k : Key} {n : Nat} (h : step s o = some s')
+    (hn : rcOf s k = some n) (hfree : o ≠ ⟨.free, k⟩) :
+    ∃ m, rcOf s' k = some m ∧ m + isOp .release k o = n + isOp .retain k o := by
+  by_cases hk : o.key = k
+  · obtain ⟨kd, k0⟩ := o
+    simp only at hk
+    subst hk
+    obtain ⟨c, hf, hg, hrc⟩ := rcOf_some_find hn
+    cases kd with
+    | alloc =>
+      rcases step_alloc h with ⟨hnone, _⟩ | ⟨c0, hf0, hvac, _, _⟩
+      · rw [hnone] at hf; cases hf
+      · rw [hf0] at hf; cases hf; rw [hvac] at hrc; cases hrc
+    | retain =>
+      obtain ⟨m, hm, rfl⟩ := step_retain h
+      rw [hn] at hm; cases hm
+      exact ⟨m + 2, rcOf_upd_self hf _, by simp [isOp]⟩
+    | release =>
+      obtain ⟨m, hm, rfl⟩ := step_release h
+      rw [hn] at hm; cases hm
+      exact ⟨m, rcOf_upd_self hf _, by simp [isOp]⟩
+    | free => exact absurd rfl hfree
+    | use => obtain ⟨m, _, rfl⟩ := step_use h; exact ⟨n, hn, by simp [isOp]⟩
+    | close => obtain ⟨m, _, rfl⟩ := step_close h; exact ⟨n, hn, by simp [isOp]⟩
+  · refine ⟨n, rcOf_step_other h hn hk, ?_⟩
+    have h1 : isOp .release k o = 0 := by
+      simp only [isOp]; split
+      · rename_i e; rw [e] at hk; exact absurd rfl hk
+      · rfl
+    have h2 : isOp .retain k o = 0 := by
+      simp only [isOp]; split
+      · rename_i e; rw [e] at hk; exact absurd rfl hk
+      · rfl
+    omega
+
+/-- over a legal trace that does not remove `k`: count after + releases of `k` = count before + retains of `k` -/
+theorem rcOf_run {s s' : Store} {t : Trace} {k : Key} {n : Nat} (h : run s t = some s')
+    (hn : rcOf s k = some n) (hfree : (⟨.free, k⟩ : Op) ∉ t) :
+    ∃ m, rcOf s' k = some m ∧ m + countOp .release k t = n + countOp .retain k t := by
+  induction t generalizing s n with
+  | nil => simp [run] at h; subst h; exact ⟨n, hn, by simp [countOp]⟩
+  | cons o t ih =>
+    simp only [run] at h
+    split at h
+    · rename_i s1 h1
+      have hne : o ≠ ⟨.free, k⟩ := fun e => hfree (e ▸ List.mem_cons_self ..)
+      obtain ⟨m1, hm1, e1⟩ := rcOf_step h1 hn hne
+      obtain ⟨m, hm, e2⟩ := ih h hm1 (fun hm => hfree (List.mem_cons_of_mem _ hm))
+      exact ⟨m, hm, by simp only [countOp]; omega⟩
+    · cases h
+
+theorem countKind_skeleton (kd : Kind) (sp : Space) (t : Trace) (h : kd ≠ .use) :
+    countKind kd sp (skeleton t) = countKind kd sp t := by
+  induction t with
+  | nil => rfl
+  | cons o t ih =>
+    by_cases hu : o.kind = .use
+    · have : skeleton (o :: t) = skeleton t := by simp [skeleton, hu]
+      rw [this, countKind_cons, ih]
+      simp [isKind, hu, Ne.symm h]
+    · have : skeleton (o :: t) = o :: skeleton t := by simp [skeleton, hu]
+      rw [this, countKind_cons, countKind_cons, ih]
+
+theorem countKind_replicate_close (kd : Kind) (sp : Space) (k : Key) (n : Nat) (h : kd ≠ .close) :
+    countKind kd sp (List.replicate n ⟨.close, k⟩) = 0 := by
+  induction n with
+  | zero => rfl
+  | succ n ih =>
+    rw [List.replicate_succ, countKind_cons, ih]
+    simp [isKind, Ne.symm h]
+
 end Mimium.Heap
